@@ -1180,6 +1180,103 @@ func c03PullRace(c *fw.Ctx, i int, pk string) {
 	e.finish(all)
 }
 
+// scenario 2b: a pull attempt stays in flight across several of lal's 1 s ticks while NOBODY else is
+// on the name (the attempt is the only thing that keeps the stream's state alive); it then attaches.
+// From then on it is the accepted input like any other: witnesses joining get its media, the stat
+// API lists it, and a publisher arriving now is refused.
+func c03PullAlone(c *fw.Ctx, i int, pk string) {
+	e := c03Start(c, i)
+	if e == nil {
+		return
+	}
+	defer e.stop()
+	e.desc = fmt.Sprintf("pull-in-flight-alone publisher=%s", pk)
+	c.Describe("%s", e.desc)
+	c.Cell("pull-in-flight-alone/%s-arrives", pk)
+	for _, addr := range []string{e.witR.RC.Conn.LocalAddr().String(), e.witF.Conn.LocalAddr().String()} {
+		if addr == e.witR.RC.Conn.LocalAddr().String() {
+			e.witR.Close()
+		} else {
+			e.witF.Close()
+		}
+		e.s.Notify.WaitSessionFrom(3*time.Second, 0, "sub_stop", addr)
+	}
+	p := e.newActor("pull")
+	all := []*c03Actor{p}
+	callPull := e.now()
+	p.acquire(true)
+	if p.sid == "" {
+		c.Inconclusive("pull attempt did not start\n%s", e.trace())
+		e.finish(all)
+		return
+	}
+	inFlight := srv.WaitFor(3*time.Second, func() bool {
+		for _, ss := range e.stub.Snapshot() {
+			if ss.N == p.stubIdx {
+				role, _, _ := ss.GetRole()
+				return role == "play"
+			}
+		}
+		return false
+	})
+	if !inFlight {
+		c.Inconclusive("origin never saw the play request\n%s", e.trace())
+		e.finish(all)
+		return
+	}
+	// workload delay, not a verdict: long enough for at least two of lal's 1 s housekeeping ticks
+	from := e.s.Notify.Len()
+	time.Sleep(2500 * time.Millisecond)
+	e.logf("pull attempt was in flight, alone on the name, for 2.5 s")
+	var err error
+	e.witR, err = ref.StartRtmpSubscriber(e.s.RtmpAddr(), "live", e.name, 3*time.Second)
+	if err == nil {
+		e.witF, err = srv.StartHttpSub(e.s.HttpAddr(), "/live/"+e.name+".flv", "flv", 3*time.Second)
+	}
+	if err != nil {
+		c.Inconclusive("witnesses could not re-attach: %v", err)
+		e.finish(all)
+		return
+	}
+	e.s.Notify.WaitSessionFrom(3*time.Second, from, "sub_start", e.witF.Conn.LocalAddr().String())
+	e.s.Notify.WaitSessionFrom(3*time.Second, from, "sub_start", e.witR.RC.Conn.LocalAddr().String())
+	e.stubMu.Lock()
+	close(e.withhold[p.stubIdx])
+	e.stubMu.Unlock()
+	p.awaitPull(callPull)
+	if !p.decided {
+		e.finish(all)
+		return
+	}
+	if !p.accepted {
+		c.Violate("refused-while-free/pull", fmt.Sprintf("a pull attempt that was alone on the name ended without attaching although the origin answered\n%s\n%s", e.desc, e.trace()), nil)
+		e.finish(all)
+		return
+	}
+	p.burst()
+	e.checkDelivered(p, all, "pull attached after being in flight alone across ticks")
+	e.statCheck(p, "pull attached after being in flight alone across ticks")
+	e.occupied = true
+	h := e.newActor(pk)
+	all = append(all, h)
+	h.acquire(false)
+	if h.decided && h.accepted {
+		h.burst()
+	}
+	p.burst()
+	e.checkDelivered(p, all, "after a publisher arrived")
+	e.statCheck(p, "after a publisher arrived")
+	if h.accepted {
+		h.release("close")
+	} else {
+		h.closeConn()
+	}
+	e.checkForeign(all)
+	e.occupied = false
+	p.release("stop")
+	e.finish(all)
+}
+
 // scenario 3: foreign subscribers come, go and are kicked; stale and foreign ids are kicked.
 func c03ForeignSubs(c *fw.Ctx, i int, hk string) {
 	e := c03Start(c, i)
@@ -1368,6 +1465,9 @@ func init() {
 	for _, p := range []string{"rtmp", "rtsp", "customize", "rtppub"} {
 		cat = append(cat, sc{"pullrace", p, ""})
 	}
+	for _, p := range []string{"rtmp", "rtsp"} {
+		cat = append(cat, sc{"pullalone", p, ""})
+	}
 	for _, h := range []string{"rtmp", "rtsp", "customize", "pull"} {
 		cat = append(cat, sc{"subs", h, ""})
 	}
@@ -1384,7 +1484,7 @@ func init() {
 			return nCat + 43
 		},
 		CaseTimeout: func(string) time.Duration { return 4 * time.Minute },
-		Rule: "whole-server runs on one stream name with an RTMP and an HTTP-FLV witness attached throughout and HLS, FLV recording and the stream hook on. Inputs of five kinds (RTMP publisher, RTSP publisher, customize publisher, start_rtp_pub, relay pull from a scripted stub origin) publish frames tagged with their own id. Catalogue: 5×5 holder × intruder matrix (holder accepted and publishing; 1–2 intruders arrive, try to publish, leave; holder leaves by close or kick; the intruder kind arrives again and must now be admitted), a pull attempt kept in flight by the origin while each publisher kind arrives and is then overtaken, foreign subscribers of four protocols joining/leaving/kicked plus kicks of stale, made-up and wrong-family ids; plus seeded concurrent races of 2–4 actors released by a barrier over 3 rounds. Oracles: (1) porcupine linearizability of Acquire/Release operations (call = request sent, return = outcome observed via notification, reply or connection close) against a one-register model; (2) after every foreign event the holder publishes another GOP and both witnesses' histories restricted to the holder's tag must be an exact prefix of what it handed over, complete up to the depacketiser's slack; no unit of a refused input ever reaches a witness; the holder's stream hook is not told to stop; (3) notification pairing per session id (≤1 start, ≤1 stop, stop after start, no stop without start except for pull attempts, every started session stopped once all connections are closed); (4) stat API pub/pull session id = the attached input, listed subscribers were admitted. cell = scenario × kinds.",
+		Rule: "whole-server runs on one stream name with an RTMP and an HTTP-FLV witness attached throughout and HLS, FLV recording and the stream hook on. Inputs of five kinds (RTMP publisher, RTSP publisher, customize publisher, start_rtp_pub, relay pull from a scripted stub origin) publish frames tagged with their own id. Catalogue: 5×5 holder × intruder matrix (holder accepted and publishing; 1–2 intruders arrive, try to publish, leave; holder leaves by close or kick; the intruder kind arrives again and must now be admitted), a pull attempt kept in flight by the origin while each publisher kind arrives and is then overtaken, a pull attempt kept in flight across ≥3 of lal's ticks with nobody else on the name which then attaches and must be the one input (witnesses joining get its media, stat lists it, a publisher is refused), foreign subscribers of four protocols joining/leaving/kicked plus kicks of stale, made-up and wrong-family ids; plus seeded concurrent races of 2–4 actors released by a barrier over 3 rounds. Oracles: (1) porcupine linearizability of Acquire/Release operations (call = request sent, return = outcome observed via notification, reply or connection close) against a one-register model; (2) after every foreign event the holder publishes another GOP and both witnesses' histories restricted to the holder's tag must be an exact prefix of what it handed over, complete up to the depacketiser's slack; no unit of a refused input ever reaches a witness; the holder's stream hook is not told to stop; (3) notification pairing per session id (≤1 start, ≤1 stop, stop after start, no stop without start except for pull attempts, every started session stopped once all connections are closed); (4) stat API pub/pull session id = the attached input, listed subscribers were admitted. cell = scenario × kinds.",
 		Assumptions: []string{"an operation whose outcome is not observed within its bound makes the case inconclusive (never a violation)", "start_rtp_pub inputs publish no media (admission and stat only)"},
 		MinCells: 10,
 		Run: func(c *fw.Ctx, i int) {
@@ -1395,6 +1495,8 @@ func init() {
 					c03Matrix(c, i, x.a, x.b)
 				case "pullrace":
 					c03PullRace(c, i, x.a)
+				case "pullalone":
+					c03PullAlone(c, i, x.a)
 				case "rtsprepeat":
 					c03RtspRepeat(c, i, x.a)
 				default:
